@@ -462,26 +462,32 @@ private theorem aggOne_inv3 (c : Crypto) (s : Node) (p : Partial) (h : Inv3 c sl
       rw [← e]; exact hrun _
     exact base _ _ rfl rfl rfl rfl rfl rfl rfl hca hru
 
-private theorem tryNode_inv3 (c : Crypto) (upTo : Nat) (pkts : List SyncPkt) :
-    ∀ s : Node, Inv3 c sl ad ch s → Inv3 c sl ad ch (tryNode c s upTo pkts).1 := by
+private theorem tryNodeLoop_inv3 (c : Crypto) (upTo : Nat) (pkts : List SyncPkt) :
+    ∀ (s : Node) (last : Beacon), Inv3 c sl ad ch s → Inv3 c sl ad ch (tryNodeLoop c s upTo last pkts).1 := by
   induction pkts with
-  | nil => intro s h; exact h
+  | nil => intro s last h; exact h
   | cons pk rest ih =>
-    intro s h
-    unfold tryNode
+    intro s last h
+    unfold tryNodeLoop
     split
     · exact h
     · split
       · exact h
-      · have hp := put_inv3 c s .sync pk.b h
-        split
-        · next s' hh =>
-          rw [hh] at hp
+      · split
+        · exact h
+        · have hp := put_inv3 c s .sync pk.b h
           split
-          · exact hp
-          · exact ih s' hp
-        · next s' hh => rw [hh] at hp; exact hp
-        · next s' r _ _ hh => rw [hh] at hp; exact hp
+          · next s' hh =>
+            rw [hh] at hp
+            split
+            · exact hp
+            · exact ih s' pk.b hp
+          · next s' hh => rw [hh] at hp; exact hp
+          · next s' r _ _ hh => rw [hh] at hp; exact hp
+
+private theorem tryNode_inv3 (c : Crypto) (upTo : Nat) (pkts : List SyncPkt) :
+    ∀ s : Node, Inv3 c sl ad ch s → Inv3 c sl ad ch (tryNode c s upTo pkts).1 :=
+  fun s h => tryNodeLoop_inv3 c upTo pkts s s.last h
 
 theorem step_inv3 (c : Crypto) (s : Node) (ev : Ev) (h : Inv3 c sl ad ch s) : Inv3 c sl ad ch (s.step c ev) := by
   cases ev with
@@ -503,13 +509,21 @@ theorem step_inv3 (c : Crypto) (s : Node) (ev : Ev) (h : Inv3 c sl ad ch s) : In
         obtain ⟨_, _, idx, na, h1, h2, h3, h4, h5⟩ := processPartial_admitted c s q ha
         exact Or.inl ⟨s.group, h.live, idx, na, h1, h2, h3, h4, h5⟩
   | own cur =>
-    show Inv3 c sl ad ch { s with newPartials := s.newPartials ++ [ownPartial c s cur] }
-    refine ⟨h.consts, h.live, ?_, h.cached, h.isRun⟩
-    intro q hq
-    rcases List.mem_append.1 hq with hq | hq
-    · exact h.queued q hq
-    · simp at hq; subst hq
-      exact Or.inr ⟨s.group, h.live, rfl⟩
+    show Inv3 c sl ad ch (match ownPartial c s cur with | some p => { s with newPartials := s.newPartials ++ [p] } | none => s)
+    split
+    · next p hp =>
+      refine ⟨h.consts, h.live, ?_, h.cached, h.isRun⟩
+      intro q hq
+      rcases List.mem_append.1 hq with hq | hq
+      · exact h.queued q hq
+      · simp at hq; subst hq
+        unfold ownPartial at hp
+        simp only at hp
+        split at hp
+        · cases hp
+        · cases hp
+          exact Or.inr ⟨s.group, h.live, rfl⟩
+    · exact h
   | aggPartial =>
     show Inv3 c sl ad ch (aggPartial c s).1
     unfold aggPartial
@@ -723,6 +737,26 @@ theorem c03_below_threshold (c : Crypto) (s : Node) (p : Partial) (rc : RoundCac
   simp only
   rw [hck]
   exact ⟨rfl, rfl, rfl⟩
+
+/-- the node's own contribution: nothing is signed or queued when the stored head is ahead of the tick's round;
+otherwise it is for the tick's round (re-broadcast of the head) or for head+1, never beyond the tick's round + 1 -/
+theorem c03_own_partial_round (c : Crypto) (s : Node) (cur : Nat) :
+    (s.last.round > cur → ownPartial c s cur = none) ∧
+    (∀ p, ownPartial c s cur = some p → s.last.round ≤ cur ∧ p.round ≤ cur + 1 ∧
+      (p.round = s.last.round + 1 ∨ (p.round = cur ∧ cur = s.last.round))) := by
+  unfold ownPartial
+  simp only
+  constructor
+  · intro h; rw [if_pos h]
+  · intro p hp
+    split at hp
+    · cases hp
+    · next hle =>
+      cases hp
+      simp only
+      split
+      · next he => exact ⟨by omega, by omega, Or.inr ⟨rfl, he⟩⟩
+      · exact ⟨by omega, by omega, Or.inl rfl⟩
 
 /-! ### what never counts -/
 
